@@ -46,6 +46,7 @@ type observed struct {
 	Msgs   []string
 	Locs   [][2]int
 	Calls  []abs.Call
+	TCalls []abs.TCall
 	Panic  string
 	NoData bool
 }
@@ -73,6 +74,7 @@ func projectResult(res *graphql.Result, rc *abs.RunCtx) observed {
 	}
 	if rc != nil {
 		o.Calls = append(o.Calls, rc.Calls...)
+		o.TCalls = append(o.TCalls, rc.TCalls...)
 	}
 	return o
 }
@@ -166,7 +168,9 @@ func matchResp(exp abs.Resp, obs observed, checkOcc bool) string {
 	if ed.Canon() != obs.Data.Canon() {
 		return "data: expected " + ed.Canon() + " got " + obs.Data.Canon()
 	}
-	// errors
+	// errors: required (sequential order) is a subset of observed, observed is a subset of
+	// required + optional + potential errors inside nulled subtrees; where several failures
+	// can null the same subtree any of them explains the null (sibling order is free).
 	need := map[string]int{}
 	for _, p := range exp.Errs {
 		need[pathKey(p)]++
@@ -175,19 +179,49 @@ func matchResp(exp abs.Resp, obs observed, checkOcc bool) string {
 	for _, p := range exp.Opt {
 		optional[pathKey(p)] = true
 	}
+	potential := map[string]bool{}
+	for _, p := range exp.All {
+		potential[pathKey(p)] = true
+	}
 	for i, p := range obs.Errs {
 		k := pathKey(p)
 		if need[k] > 0 {
 			need[k]--
 			continue
 		}
-		if optional[k] || underNull(ed, p) {
+		if optional[k] || (potential[k] && underNull(ed, p)) {
 			continue
 		}
 		return fmt.Sprintf("unexpected error at path %v: %s", p, obs.Msgs[i])
 	}
-	for k, n := range need {
-		if n > 0 {
+	for _, e := range exp.Errs {
+		k := pathKey(e)
+		if need[k] <= 0 {
+			continue
+		}
+		need[k]--
+		// the outermost null position above e: any potential failure below it explains the null
+		root := -1
+		if ed.K == "null" {
+			root = 0
+		} else {
+			for n := 0; n < len(e); n++ {
+				if v, ok := valueAt(ed, e[:n]); ok && v.K == "null" {
+					root = n
+					break
+				}
+			}
+		}
+		explained := false
+		if root >= 0 {
+			for _, p := range obs.Errs {
+				if len(p) >= root && pathKey(p[:root]) == pathKey(e[:root]) && potential[pathKey(p)] {
+					explained = true
+					break
+				}
+			}
+		}
+		if !explained {
 			return "missing error at path " + k
 		}
 	}
@@ -200,10 +234,15 @@ func matchResp(exp abs.Resp, obs observed, checkOcc bool) string {
 	// calls
 	expCalls := map[string]int{}
 	expOcc := map[string][]int{}
+	expRt := map[string]string{}
 	for _, c := range exp.Calls {
 		expCalls[c.Key()]++
 		expOcc[c.Key()] = c.Occ
+		if c.Rt != nil {
+			expRt[c.Key()] = c.Rt.String()
+		}
 	}
+	expVV := abs.Value{K: "obj", Fields: exp.VVals}.Canon()
 	seenPath := map[string]bool{}
 	for _, c := range obs.Calls {
 		pk := pathKey(c.P)
@@ -214,6 +253,15 @@ func matchResp(exp abs.Resp, obs observed, checkOcc bool) string {
 		k := c.Key()
 		if expCalls[k] > 0 {
 			expCalls[k]--
+			if len(c.Info) > 0 {
+				return "resolver at " + pk + ": " + strings.Join(c.Info, "; ")
+			}
+			if checkOcc && expRt[k] != "" && c.RtStr != expRt[k] {
+				return "resolver at " + pk + ": Info.ReturnType is " + c.RtStr + ", declared " + expRt[k]
+			}
+			if checkOcc && c.VV != expVV {
+				return "resolver at " + pk + ": Info.VariableValues is " + c.VV + ", coerced variables are " + expVV
+			}
 			if checkOcc {
 				have := map[int]bool{}
 				for _, id := range c.Occ {
@@ -238,6 +286,27 @@ func matchResp(exp abs.Resp, obs observed, checkOcc bool) string {
 	for _, c := range exp.Calls {
 		if expCalls[c.Key()] > 0 && !underNull(ed, c.P) {
 			return "missing resolver call " + c.Key()
+		}
+	}
+	// type-resolver invocations
+	expT := map[string]int{}
+	for _, t := range exp.TCalls {
+		expT[pathKey(t.P)+"|"+t.V]++
+	}
+	for _, t := range obs.TCalls {
+		k := pathKey(t.P) + "|" + t.V
+		if expT[k] > 0 {
+			expT[k]--
+			continue
+		}
+		if underNull(ed, t.P) {
+			continue
+		}
+		return "unexpected or mis-parameterised type-resolver call " + k
+	}
+	for _, t := range exp.TCalls {
+		if expT[pathKey(t.P)+"|"+t.V] > 0 && !underNull(ed, t.P) {
+			return "missing type-resolver call at " + pathKey(t.P)
 		}
 	}
 	return ""
@@ -267,7 +336,24 @@ func guard(f func() *graphql.Result) (res *graphql.Result, pan string) {
 }
 
 func newRun(b *abs.Built, outs []abs.OutEntry, pr *abs.Printed) *abs.RunCtx {
-	return &abs.RunCtx{Outs: outs, NodeID: pr.ByOff, Built: b}
+	return &abs.RunCtx{Outs: outs, NodeID: pr.ByOff, Built: b, Root: rootObject, RootTag: "r"}
+}
+
+// newRunFor also records what the harness passed in, so resolvers can check ResolveInfo.
+func newRunFor(b *abs.Built, v *execVector, outs []abs.OutEntry, pr *abs.Printed) *abs.RunCtx {
+	rc := newRun(b, outs, pr)
+	op := v.Doc.Ops[0]
+	for _, o := range v.Doc.Ops {
+		if o.Name == v.OpName && v.OpName != "" {
+			op = o
+		}
+	}
+	rc.OpKind, rc.OpName = op.Kind, op.Name
+	rc.FragNames = []string{}
+	for _, f := range v.Doc.Frags {
+		rc.FragNames = append(rc.FragNames, f.Name)
+	}
+	return rc
 }
 
 var rootObject = map[string]interface{}{"__tag": "r"}
@@ -382,7 +468,21 @@ func handleSchemaLine(raw []byte, st *Stats, wk *worker) {
 	wk.cache["built"] = b
 }
 
+func execHandler(prop string) func(fs *flag.FlagSet) handler {
+	return func(fs *flag.FlagSet) handler {
+		return func(tag string, raw []byte, st *Stats, wk *worker) {
+			switch tag {
+			case "SCHEMA":
+				handleSchemaLine(raw, st, wk)
+			case "VEC":
+				replayExecVector(raw, st, wk, prop)
+			}
+		}
+	}
+}
+
 func init() {
+	handlers["C04"] = execHandler("C04")
 	handlers["C01"] = func(fs *flag.FlagSet) handler {
 		return func(tag string, raw []byte, st *Stats, wk *worker) {
 			switch tag {
@@ -424,11 +524,24 @@ func replayExecVector(raw []byte, st *Stats, wk *worker, prop string) {
 		}
 		return
 	}
-	if nontrivialDoc(&v.Doc) {
-		st.Distinct("distinct_nontrivial", pr.Text)
+	switch prop {
+	case "C04":
+		if len(v.Outs) > 0 && len(v.Outs[0]) > 0 {
+			b, _ := json.Marshal(v.Outs[0])
+			st.Distinct("distinct_nontrivial", pr.Text+string(b))
+		}
+	default:
+		if nontrivialDoc(&v.Doc) {
+			st.Distinct("distinct_nontrivial", pr.Text)
+		}
 	}
 	st.Distinct("distinct_docs", pr.Text)
 	report := func(ep string, ri int, why string, obs observed) {
+		cat := why
+		if i := strings.IndexAny(cat, ":{"); i > 0 {
+			cat = cat[:i]
+		}
+		st.Add("mismatch/"+cat, 1)
 		st.Mismatch(Mismatch{What: prop + " " + ep + ": " + why,
 			Detail: map[string]interface{}{"query": pr.Text, "inputs": v.Runs[ri].Inputs, "outs": v.Outs[v.Runs[ri].Oi-1],
 				"expected": v.Runs[ri].Exp, "observed_data": obs.Data.Canon(), "observed_errs": obs.Errs, "observed_msgs": obs.Msgs,
@@ -461,19 +574,19 @@ func replayExecVector(raw []byte, st *Stats, wk *worker, prop string) {
 		run := &v.Runs[ri]
 		outs := v.Outs[run.Oi-1]
 		vars := varsMap(run.Inputs)
-		if !account("Do", ri, runDo(b, pr.Text, v.OpName, vars, newRun(b, outs, pr))) {
+		if !account("Do", ri, runDo(b, pr.Text, v.OpName, vars, newRunFor(b, &v, outs, pr))) {
 			return
 		}
-		if !account("Execute", ri, runExecute(b, doc, v.OpName, vars, newRun(b, outs, pr))) {
+		if !account("Execute", ri, runExecute(b, doc, v.OpName, vars, newRunFor(b, &v, outs, pr))) {
 			return
 		}
-		if !account("ExecutePlan", ri, runPlan(b, plan, vars, newRun(b, outs, pr))) {
+		if !account("ExecutePlan", ri, runPlan(b, plan, vars, newRunFor(b, &v, outs, pr))) {
 			return
 		}
 	}
 	if len(v.Runs) > 1 {
 		run := &v.Runs[0]
-		if !account("ExecutePlan(reuse)", 0, runPlan(b, plan, varsMap(run.Inputs), newRun(b, v.Outs[run.Oi-1], pr))) {
+		if !account("ExecutePlan(reuse)", 0, runPlan(b, plan, varsMap(run.Inputs), newRunFor(b, &v, v.Outs[run.Oi-1], pr))) {
 			return
 		}
 	}
